@@ -131,7 +131,7 @@ def handleIo (op : String) (a : List String) (impl : String) : Option Verdict :=
     let r := if fmt == "npy" then writeNpyWr shape bits w else writeTextWr shape bits p w
     let m := match r with | .ok w' => s!"OK {showHexBytes w'.out}" | .error e => s!"ERR {errTag e}"
     pure (cmpStr impl m s!"wr-{fmt}-{if fail.isSome then "fail" else "short"}-{match r with | .ok _ => "ok" | .error e => "err-" ++ errTag e}")
-  | "io.cmd", [cmd, args, hx] | "io.cmdp", [cmd, args, hx] => do
+  | "io.cmd", [cmd, args, hx] | "io.cmdp", [cmd, args, hx] | "io.cmds", [cmd, args, hx, _] => do
     let bytes ← parseHexBytes hx
     match readSpectrum bytes with
     | .error e => pure (cmpStr impl "ERR|1|-" s!"cli-{cmd}-rejected-{errTag e}")
